@@ -32,6 +32,11 @@ func DrawCase(t *rapid.T, o gen.GenOpts) *drive.Case {
 	for _, v := range gen.BoolVars {
 		c.Vars[v] = rapid.Bool().Draw(t, v)
 	}
+	if o.DataObjConds {
+		for _, v := range gen.DataObjPool {
+			c.Vars[gen.DataObjKey(v)] = rapid.Bool().Draw(t, "do_"+v)
+		}
+	}
 	c.IDStyle = rapid.SampledFrom([]int{0, 0, 1, 2, 3}).Draw(t, "idStyle")
 	if blk.Features().Sub == 0 && rapid.IntRange(0, 3).Draw(t, "cancelBuild") == 0 {
 		// (not with sub-processes: their tracers are bound to the construction
@@ -168,6 +173,7 @@ func opts() gen.GenOpts {
 		o.MaxDepth, o.MaxNodes = 4, 30
 	}
 	o.AllKinds = true
+	o.DataObjConds = true
 	o.XPath = !rec.Exclude("C04-F1")
 	o.NoIncNest = rec.Exclude("C05-F1")
 	o.NoSub = rec.Exclude("C12-F1")
